@@ -72,19 +72,21 @@ func (m *mrtWriter) dumpTable() []*mrt.MRTMessage {
 			return p.index
 		}
 		newIdx := uint16(len(peermap))
-		if p.GetSource().Address == netip.IPv4Unspecified() {
-			// Adding dummy Peer record for locally generated routes
-			peermap[netip.IPv4Unspecified()] = dumpPeer{
+		if src := p.GetSource(); !src.Address.IsValid() || src.Address == netip.IPv4Unspecified() {
+			// Adding dummy Peer record for locally generated routes (their
+			// source carries no address at all)
+			peermap[src.Address] = dumpPeer{
 				index: newIdx,
 				addr:  netip.IPv4Unspecified(),
 				id:    netip.IPv4Unspecified(),
 				as:    0,
 			}
 		} else {
-			peermap[p.GetSource().Address] = dumpPeer{
+			peermap[src.Address] = dumpPeer{
 				index: newIdx,
-				addr:  p.GetSource().Address,
-				id:    p.GetSource().ID,
+				addr:  src.Address,
+				id:    src.ID,
+				as:    src.AS,
 			}
 		}
 		return newIdx
